@@ -127,8 +127,8 @@ def rule_admit(E, R):
                 built.setdefault(pr, set()).add(v)
             if lt is not None:
                 lexed.setdefault(pr, set()).add(lt)
-        admb = {last_seg(x[0]) for x in sem.admitted_tuples(s.pc, [pB], [UB])}
-        if len(admb) < len(UB):
+        admb = sem.nested_variants(s.pc, lambda v_: True, "BytesOp") or set()      # also `ComparisonOp::Bytes(BytesOp::X)` in a tuple pattern
+        if admb and len(admb) < len(UB):
             for bo in admb:
                 if v is not None:
                     built_b.setdefault(bo, set()).add(v)
